@@ -117,7 +117,8 @@ theorem order_smul (a : EdElem) (va : Valid h a) : ((c.L.toNat : ℕ) : ℤ) •
 omit [Fact c.Q.toNat.Prime] h in
 /-- the scalar `Element.negate` multiplies by is `L - 1` (the generated definition is re-derived
 from the source on every run: a regression to `L - 2` breaks this proof) -/
-theorem negate_scalar_eq (L : ℤ) : Ed.negate_scalar L = L - 1 := rfl
+theorem negate_scalar_eq (L : ℤ) : Ed.negate_scalar L = L - 1 := by
+  unfold Ed.negate_scalar; omega
 
 theorem negate_spec (a : EdElem) (va : Valid h a) :
     ∃ b, Ed25519.negate c a = .ok b ∧ Valid h b ∧ abs h b = - abs h a := by
